@@ -210,7 +210,9 @@ func (d *dataTracer) traceMessageLocked(data []byte) (int, bool) {
 	if d.endStream != nil { //nolint:nestif
 		_, _ = d.endStream.Write(data[:need])
 		var content string
-		if d.decompressor == nil {
+		if d.decompressor == nil || d.env.Flags&1 == 0 {
+			// Not compressed (only the first flag bit says so, not
+			// the negotiated encoding), so use the contents as is.
 			content = d.endStream.String()
 		} else {
 			var uncompressed bytes.Buffer
